@@ -238,6 +238,23 @@ CLAIMED = {
              "proved (partial with respect to DESIGN's lex_skeleton).",
         design_ref="§5 C12",
     ),
+    "C13": dict(
+        category="proof",
+        technique="Lean 4 proof that the shared lexer cache is transparent for every call history (over the LRU reference "
+                  "map proved in C26) with the key-covers-reads fact re-proved from lexer.py each run + metamorphic renders "
+                  "across delimiter sets, line statements, Template(...), overlays, with interleaved environments",
+        text="Theorems (Props/C13.lean): every environment attribute read by Lexer.__init__/compile_rules is an element of "
+             "get_lexer's key tuple (key_covers_reads, by decide over Gen/LexerKey.lean regenerated every run); get_lexer has the "
+             "get-or-build-and-store shape, the lexer keeps no environment reference and Environment.lexer memoises nothing "
+             "(get_lexer_shape); for every history of keys and every capacity, each call returns the lexer built from its own "
+             "key (lexer_cache_transparent). Tie: random skeletons unparsed by the Lean reference into 8 delimiter sets x 4 "
+             "trim/lstrip settings and rendered through Environment / Template(...) / overlay / overlay chains, interleaved; "
+             "60-200 further configurations cycle the caches and the first environments are re-checked; whole-line tags and "
+             "comments rewritten as line statements/comments (3 prefix sets).",
+        note="Trusted: Lean kernel; translator; the delimiter-translation and line-statement equivalences are correspondence "
+             "(metamorphic) only. Known finding: a whole-line *comment* written as line comment keeps its newline.",
+        design_ref="§5 C13",
+    ),
 }
 
 NOT_YET = "not yet decided by the Lean model in this revision (machinery for it is not built; see DESIGN.md §8 build order)"
